@@ -145,15 +145,16 @@ pub fn profile_for(id: &str, rng: &mut Rng) -> Profile {
             p.w_failing = 2;
         }
         "C13" => {
-            p.guards.push("ddl_after_vacuum".into()); // D29
-            // D29b / D29c: VACUUM is explored in single-table worlds without UPDATE
-            p.guards.push("vacuum_with_more_than_one_table".into());
-            p.guards.push("vacuum_of_updated_rows".into());
-            p.max_tables = 1;
-            p.w_ddl = 0;
-            p.updates = false;
+            // (D14, D29, D29b, D29c were repaired: VACUUM is explored with several tables, DDL after it
+            // and - in autocommit, on tables without a unique index - updated rows)
+            p.max_tables = rng.range(1, 2) as u32;
+            p.w_ddl = *rng.pick(&[0, 0, 4]);
             if rng.chance(40) {
                 // wide variant: several leaves of uniform ~0.5 KiB rows, so that VACUUM empties and merges pages
+                // (one table, no UPDATE: cells of this size must stay uniform, open findings D31e / D31b)
+                p.max_tables = 1;
+                p.w_ddl = 0;
+                p.updates = false;
                 p.text_cols = true;
                 p.pad_text = 450;
                 p.max_inserts_per_table = 90;
@@ -215,15 +216,9 @@ pub fn profile_for(id: &str, rng: &mut Rng) -> Profile {
                 // a client whose transaction VACUUM aborted sends COMMIT / ROLLBACK or vanishes
                 p.zombie_sessions = true;
                 p.w_vacuum = 8;
-                // the region in which VACUUM itself is clean on this tree (as for C13: D29, D29b, D29c)
-                p.guards.push("ddl_after_vacuum".into());
-                p.guards.push("vacuum_with_more_than_one_table".into());
-                p.guards.push("vacuum_of_updated_rows".into());
                 p.max_tables = 1;
                 p.w_ddl = 0;
-                p.updates = false;
                 p.plan_probes = false;
-                p.constraints = false; // an index is a second relation (D29b)
                 p.max_sessions = rng.range(2, 3) as u32;
                 p.w_session = 60;
             }
